@@ -203,6 +203,10 @@ namespace {
       }
     }
     for (const auto &[src, want] : mine) { expect_int(src, want, "own registration at end"); }
+    // this thread is about to end: its thread-local stack holder dies with it and the address may serve a later thread
+    if (g_on.load(std::memory_order_relaxed) && tid() < k_max_threads) {
+      g_bufs[tid()].push_back(Ev{g_seq.fetch_add(1, std::memory_order_relaxed) + 1, "tend", tid(), 0, 0, std::string()});
+    }
   }
 } // namespace
 
